@@ -233,23 +233,29 @@ pub enum ParagraphElement { EvalInlineMechCode(Expression), Text(u64), Other(u64
 pub struct Paragraph { pub elements: Vec<ParagraphElement> }
 pub struct Comment { pub paragraph: Paragraph }
 // an interpreter: the ghost list of EXPRESSIONS evaluated on it (no statement evaluator is reachable from here), the table of displayed outputs, the inline counter
-pub struct Interpreter { pub evals: Ghost<Seq<Expression>>, pub outs: Ghost<Map<u64, Value>>, pub counter: Ghost<nat> }
+// `vars` is the ghost list of values written to the SYMBOL TABLE through this interpreter (the only writer reachable from prose code is `update_ans_symbol`)
+pub struct Interpreter { pub evals: Ghost<Seq<Expression>>, pub outs: Ghost<Map<u64, Value>>, pub counter: Ghost<nat>, pub vars: Ghost<Seq<Value>> }
 pub uninterp spec fn ev(e: Expression, before: Seq<Expression>) -> Option<Value>;
 pub uninterp spec fn inline_id(n: nat) -> u64;
 #[verifier::external_body]
 pub fn expression(e: &Expression, env: Option<&u64>, p: &mut Interpreter) -> (r: Result<Value, MechError>)
-  ensures final(p).evals@ == old(p).evals@.push(*e), final(p).outs == old(p).outs, final(p).counter == old(p).counter,
+  ensures final(p).evals@ == old(p).evals@.push(*e), final(p).outs == old(p).outs, final(p).counter == old(p).counter, final(p).vars == old(p).vars,
     (match r { Ok(v) => ev(*e, old(p).evals@) == Some(v), Err(_) => ev(*e, old(p).evals@) is None }),
 { unimplemented!() }
 #[verifier::external_body]
 pub fn inline_eval_id(p: &mut Interpreter) -> (r: u64)
-  ensures r == inline_id(old(p).counter@), final(p).counter@ == old(p).counter@ + 1, final(p).evals == old(p).evals, final(p).outs == old(p).outs,
+  ensures r == inline_id(old(p).counter@), final(p).counter@ == old(p).counter@ + 1, final(p).evals == old(p).evals, final(p).outs == old(p).outs, final(p).vars == old(p).vars,
+{ unimplemented!() }
+// mechdown.rs `update_ans_symbol` (what `mech_code` calls after a statement): writes the variable `ans`
+#[verifier::external_body]
+pub fn update_ans_symbol(v: &Value, p: &mut Interpreter)
+  ensures final(p).vars@ == old(p).vars@.push(*v), final(p).evals == old(p).evals, final(p).outs == old(p).outs, final(p).counter == old(p).counter,
 { unimplemented!() }
 #[verifier::external_body]
 pub fn not_executable_error() -> (e: MechError) { unimplemented!() }
 impl Interpreter {
   #[verifier::external_body]
-  pub fn out_values_insert(&mut self, k: u64, v: Value) ensures final(self).outs@ == old(self).outs@.insert(k, v), final(self).evals == old(self).evals, final(self).counter == old(self).counter, { unimplemented!() }
+  pub fn out_values_insert(&mut self, k: u64, v: Value) ensures final(self).outs@ == old(self).outs@.insert(k, v), final(self).evals == old(self).evals, final(self).counter == old(self).counter, final(self).vars == old(self).vars, { unimplemented!() }
 }
 """
 
@@ -267,10 +273,12 @@ def paragraph_element_fn(text):
         ee = match_brace(b, mm.start() + b[mm.start():].index("("), "(", ")")
         b = b[:mm.start()] + "Err(not_executable_error())" + b[ee:]
     b = re.sub(r"\bexpression\(\s*&expr\s*,", "expression(expr,", b)
+    b = vC16.apply_cfg(b, _features())
     if re.search(r"\b(MechError::new|todo!)\b", b):
         raise AnchorLost("paragraph_element: statements outside the transcription rules")
     return ("fn paragraph_element(element: &ParagraphElement, p: &mut Interpreter) -> (res: Result<(u64, Value), MechError>)\n"
             "  ensures final(p).outs == old(p).outs,\n"
+            "    final(p).vars == old(p).vars,          // prose writes no variable\n"
             "    // only an inline `{{..}}` element evaluates anything, and what it evaluates is one EXPRESSION; its failure is displayed as the empty value, never raised\n"
             "    (match *element {\n"
             "       ParagraphElement::EvalInlineMechCode(e) => final(p).evals@ == old(p).evals@.push(e) && res == Ok::<(u64, Value), MechError>((inline_id(old(p).counter@), match ev(e, old(p).evals@) { Some(v) => v, None => Value::Empty })),\n"
